@@ -74,7 +74,7 @@ from hypothesis import strategies as st
 from .. import gen, ref
 from ..core import Clause, Out, Property
 from ..env import L
-from ..lib import F, Q, ahash
+from ..lib import F, Q, ahash, case_flag, quiet
 
 U_ = ref.U
 C_T = 16.0
@@ -370,6 +370,20 @@ def hybrid_cases(draw, tier, long=False):
 def cgne_cases(draw, tier, long=False, moderate=False):
     A, e = draw(_moderate_tall_matrix() if moderate else _long_tall_matrix(tier) if long else _tall_matrix(weights=(3, 3, 4)))
     m, n = A.shape[:2]
+    if not long and draw(st.integers(0, 5)) == 0:
+        # square Hermitian inputs: positive definite, or indefinite with a positive diagonal (I + off-diagonal part) -
+        # the class a "symmetric" shortcut would pick out
+        n = n if moderate else max(n, 3)
+        rng = np.random.RandomState(draw(gen.seeds()))
+        Hm = gen.make_hermitian(rng.standard_normal((n, n, 4)))
+        for i in range(n):
+            Hm[i, i] = 0.0
+        c_ = draw(st.sampled_from([0.25, 0.125, 0.5])) / np.sqrt(n) * 2.0
+        A = ref.qeye(n) + c_ * Hm
+        if ref.cond(A) > 1e3:
+            A = ref.qeye(n) + 0.25 * c_ * Hm
+        A = np.ascontiguousarray(A * 10.0 ** e)
+        m = n
     pr = draw(st.sampled_from([0] * 8 + [2, n] if moderate else [0, 0, 0, 0, 1, 2, n, n + 1, -1]))
     max_iter = draw(st.sampled_from([None, None, None, 200, 80, 1000] if moderate else [None, None, None, 1, 2, 3, 10, 50]))
     tol = draw(st.sampled_from([1e-8, 2.5e-8, 1e-7, 1e-6, 1e-5, 1e-3])) if moderate else draw(_tol_strategy())
@@ -417,7 +431,7 @@ def check_rsp_column(case):
 
     def run():
         kw = dict(block_size=case["block"], max_iter=case["max_iter"], tol=tol, test_sketch_size=s,
-                  column_solver=case["solver"])
+                  column_solver=case["solver"], verbose=case_flag(A, 6))
         if case["seed_mode"] == "ctor":
             sol = L.solver.RandomizedSketchProjectPseudoinverse(seed=seed, **kw)
         else:
@@ -432,7 +446,7 @@ def check_rsp_column(case):
 
     if case.get("warmup"):
         out.label("reused_solver(warm-up call on a nearby matrix)")
-    ok, res = out.call(site, run)
+    ok, res = out.call(site, quiet, run)
     if not ok:
         return out
     out.true(f"{site}:argument unchanged", ahash(Aq) == h0, "input array modified")
@@ -523,7 +537,7 @@ def check_rsp_row(case):
     h0 = ahash(Aq)
 
     def run():
-        kw = dict(block_size=case["block"], max_iter=case["max_iter"], tol=tol, test_sketch_size=s)
+        kw = dict(block_size=case["block"], max_iter=case["max_iter"], tol=tol, test_sketch_size=s, verbose=case_flag(A, 6))
         if case["seed_mode"] == "ctor":
             sol = L.solver.RandomizedSketchProjectPseudoinverse(seed=seed, **kw)
         else:
@@ -531,7 +545,7 @@ def check_rsp_row(case):
             np.random.seed(seed)
         return getattr(sol, case["entry"])(Aq)
 
-    ok, res = out.call(site, run)
+    ok, res = out.call(site, quiet, run)
     if not ok:
         return out
     out.true(f"{site}:argument unchanged", ahash(Aq) == h0, "input array modified")
@@ -617,7 +631,7 @@ def check_hybrid(case):
     h0 = ahash(Aq)
 
     def run():
-        kw = dict(r=r, p=p, T=T, tol=tol, max_iter=case["max_iter"], column_solver=solver)
+        kw = dict(r=r, p=p, T=T, tol=tol, max_iter=case["max_iter"], column_solver=solver, verbose=case_flag(A, 6))
         if case["seed_mode"] == "ctor":
             sol = L.solver.HybridRSPNewtonSchulz(seed=seed, **kw)
         else:
@@ -628,7 +642,7 @@ def check_hybrid(case):
             np.random.seed(seed)
         return sol.compute(Aq)
 
-    ok, res = out.call(site, run)
+    ok, res = out.call(site, quiet, run)
     if not ok:
         return out
     out.true(f"{site}:argument unchanged", ahash(Aq) == h0, "input array modified")
@@ -696,7 +710,7 @@ def check_cgne(case):
     h0 = ahash(Aq)
 
     def run():
-        kw = dict(tol=tol, preconditioner_rank=pr, seed=seed)
+        kw = dict(tol=tol, preconditioner_rank=pr, seed=seed, verbose=case_flag(A, 6))
         if case["max_iter"] is not None:
             kw["max_iter"] = case["max_iter"]
         sol = L.solver.CGNEQSolver(**kw)
@@ -706,7 +720,7 @@ def check_cgne(case):
                 np.random.seed(seed)
         return sol.compute(Aq)
 
-    ok, res = out.call(site, run)
+    ok, res = out.call(site, quiet, run)
     if not ok:
         return out
     out.true(f"{site}:argument unchanged", ahash(Aq) == h0, "input array modified")
@@ -931,7 +945,7 @@ def check_trajectory(case):
                                                  max_iter=case["max_iter"], seed=seed, column_solver="qr")
             return sol.compute(Aq)
 
-    ok, res = out.call(site, run)
+    ok, res = out.call(site, quiet, run)
     if not ok:
         return out
     if not out.true(f"{site}:returns (X, info)", isinstance(res, tuple) and len(res) == 2, repr(type(res))):
